@@ -190,6 +190,18 @@ Ops12 ==
         TC1("delpaths", TArr(TComma(TArr(TNum(0)), TArr(TStr(Ascii("a")))))), TC1("pick", TKey("a")), TC1("pick", TComma(TPath(TId, << PIdx(TStr(Ascii("a"))), PIdx(TStr(Ascii("b"))) >>), TPath(TId, << PIdx(TStr(Ascii("a"))), PIdx(TStr(Ascii("c"))) >>))),
         TC1("pick", TComma(TKey("d"), TKey("a"))), TC1("join", TStr(<< 44 >>)), TC1("split", TStr(<< 98 >>)), TC1("split", TStr(<<>>)),
         TC1("has", TNum(0)), TC1("has", TStr(Ascii("a"))), TPipe(TNum(0), TC1("in", TId)), TC1("select", TBin(">", TC0("length"), TNum(1)))}
+\* number classes, selections by class, trimming, tonumber / toboolean: on every kind of number (both zeros, both infinities, NaN,
+\* big integers, decimal literals) and on strings with leading / trailing White_Space characters and number-like spellings
+Num12 == {NaN, Inf, NInf, NZero, IntV(0), IntV(1), IntV(-2), FltV(0, 1), FltV(1, 2), FltV(-3, 4), BigV(FALSE, P70), BigV(TRUE, P70), BigV(FALSE, << 5 >>),
+          DecV(Ascii("0.0")), DecV(Ascii("1.10")), DecV(Ascii("0e5")), DecV(Ascii("1e1000")), False}
+Str12 == {StrV(c) : c \in {<<>>, << 32 >>, << 32, 97, 32 >>, << 9, 10, 11, 12, 13, 32, 97, 32, 98, 12288 >>, << 160, 133, 120, 8195, 32 >>, << 32, 8203 >>, << 8203, 32 >>, << 5760, 8192, 8202, 8232, 8233, 8239, 8287 >>,
+                          << 8191, 97, 8203 >>, << 8, 97, 14 >>, << 28, 97, 31 >>, << 32, -255, 32 >>, << 97, 32, 32 >>, << 32, 32, 97 >>,
+                          Ascii("42"), Ascii("-7"), Ascii("007"), Ascii("-0"), Ascii("0"), Ascii("123456789"), Ascii("true"), Ascii("false"), Ascii("null"), Ascii("[42]"), Ascii("[true]"),
+                          Ascii("1.5"), Ascii("abc"), Ascii("1 2"), Ascii("true false"), Ascii(" 42"), Ascii("--1"), Ascii("{}"), << 34, 49, 34 >>, Ascii("1e2"), Ascii("nan"), Ascii("True")}}
+          \cup {BytesV(<< 32, 97 >>)}
+Ops12n == {TC0(f) : f \in {"isnan", "isinfinite", "isfinite", "isnormal", "finites", "normals", "booleans", "numbers", "strings", "trim", "ltrim", "rtrim", "tonumber", "toboolean"}}
+          \cup {TBin("==", TC0("trim"), TPipe(TC0("ltrim"), TC0("rtrim"))), TArr(TPipe(TComma(TC0("nan"), TComma(TC0("infinite"), TNeg(TC0("infinite")))), TComma(TC0("isnan"), TComma(TC0("isinfinite"), TComma(TC0("isfinite"), TC0("isnormal")))))),
+                 TArr(TPipe(TIterO, TC0("normals"))), TArr(TPipe(TIterO, TC0("finites"))), TPipe(TC0("tostring"), TC0("tonumber"))}
 Needles12 == {IntV(1), IntV(2), SA, SB, StrV(Ascii("foo")), StrV(Ascii("bar")), StrV(Ascii("ob")), ArrV(<< IntV(1) >>), ArrV(<< IntV(1), IntV(1) >>), ArrV(<< IntV(2), IntV(1) >>),
               ArrV(<< StrV(Ascii("foo")), StrV(Ascii("bar")) >>), ArrV(<< ArrV(<< IntV(1) >>), ArrV(<< IntV(2) >>) >>), Null, O2(SA, IntV(1), SB, IntV(2)),
               ObjV(<< << SA, ArrV(<< ArrV(<< IntV(1) >>), ArrV(<< IntV(2) >>) >>) >> >>), ObjV(<< << SA, ObjV(<< << SB, IntV(1) >> >>) >> >>)}
@@ -197,7 +209,7 @@ Ops12x == {TC1(f, TVar("x")) : f \in {"contains", "inside", "indices", "index", 
           \cup {TPipe(TVar("x"), TC1("in", TVar("c")))}
 
 Cases ==
-  CASE Suite = "coll" -> {<< On(C, p), V1(c) >> : p \in Ops12, c \in Coll12}
+  CASE Suite = "coll" -> {<< On(C, p), V1(c) >> : p \in Ops12, c \in Coll12} \cup {<< On(C, p), V1(c) >> : p \in Ops12n, c \in Coll12 \cup Num12 \cup Str12 \cup {ArrV(<< NaN, IntV(0), Inf, IntV(3), NZero, Null, FltV(1, 2) >>)}}
     [] Suite = "coll2" -> {<< On(C, p), << << "c", c >>, << "x", x >> >> >> : p \in Ops12x, c \in Coll12, x \in Needles12}
     [] Suite = "arith-int" -> {<< TBin(op, a, b), <<>> >> : op \in ArithOps, a \in Lits9, b \in Lits9} \cup {<< TNeg(a), <<>> >> : a \in Lits9}
     [] Suite = "arith-kinds" -> {<< TBin(op, VA, VB), << << "a", a >>, << "b", b >> >> >> : op \in {"+", "-", "*", "/", "%"}, a \in Kinds9, b \in Kinds9}
